@@ -71,6 +71,8 @@ class Target:
         self.log.append(rec)
         if self.script:
             status, sense = self.script.pop(0)
+            if callable(status):
+                status = status()          # (a scripted side effect at the moment the command is in flight, e.g. the node is replaced)
             if isinstance(status, BaseException):
                 rec["status"] = "fault"
                 raise status          # fault port: the binding fails (I/O error on the transport) instead of completing the command
